@@ -251,7 +251,7 @@ def gen(rng, tier, mult=1):
                               meta={"kind": "slow-reader"})
     # 2d. many connections that are reset before their request head is complete (port scans, health checks, clients
     #     that lose power), then ordinary requests: every one of them is answered
-    for k in ((120,) if tier == "quick" else (120, 600, 2000)):
+    for k in ((120,) if tier == "quick" else (120, 400)):
         i += 1
         ab = {"raw": b"GET /x HT".hex(), "abort": True, "expect": "any", "is_head": False}
         phases = [[dict(ab) for _ in range(20)] for _ in range(k // 20)]
